@@ -10,16 +10,20 @@ def run(ctx):
     behs = []
     # every exit path from Established after 0-2 UPDATEs, then re-establishment on a new connection
     c = sc.consts("ebgp", {"ok"}, {"annA", "annAB", "annC6", "noOrigin", "pfxLen33"}, {"badMarker", "lenLong"},
-                  {"ManualStop", "HoldExpires", "Notification"}, 8 if not big else 9)
+                  {"ManualStop", "HoldExpires", "Notification", "NotifCode7"}, 8 if not big else 9)
     behs += sc.run_family(ctx, "ebgp exits", c, 8000 if big else 900, sim=(500 if big else 60, 14))
     c = sc.consts("hold3", {"hold3"}, {"annAB"}, set(), {"WriteFails", "HoldExpires"}, 7)
     behs += sc.run_family(ctx, "keepalive write failure", c, 2000 if big else 150)
-    c = sc.consts("ibgp", {"ok"}, {"annAB", "wdA"}, {"type0"}, {"ManualStop", "Notification"}, 7)
+    c = sc.consts("ibgp", {"ok"}, {"annAB", "wdA"}, {"type0"}, {"ManualStop", "Notification", "NotifBadSub", "NotifData"}, 7)
     behs += sc.run_family(ctx, "ibgp exits", c, 3000 if big else 250)
+    for cfg in ("rr", "rrcid"):
+        c = sc.consts(cfg, {"ok"}, {"annAB"}, {"badMarker"}, {"ManualStop", "NotifCode7"}, 7)
+        behs += sc.run_family(ctx, "route reflector client (%s) exits" % cfg, c, 2000 if big else 120)
     ctx.rule = ("BGPFSM behaviours that reach Established, learn 0-2 UPDATEs (IPv4 and IPv6) and leave through every exit path "
-                "(NOTIFICATION received, hold timer expiry, keepalive write failure, malformed UPDATE, malformed header, unexpected "
+                "(NOTIFICATION received - plain, with data, with a code or subcode this speaker does not know -, hold timer expiry, keepalive write failure, malformed UPDATE, malformed header, unexpected "
                 "OPEN, manual stop), then re-establish on a new connection; after every event the Loc-RIB must hold exactly the current "
-                "session's routes while attached and nothing otherwise, the local ASN's loop-detection contribution must follow, and "
+                "session's routes while attached and nothing otherwise, the local ASN's (and for a route reflector client the cluster id's, defaulted or configured) loop-detection "
+                "contribution must follow, and "
                 "the new session starts from empty Adj-RIBs; non-trivial = Established is left with routes learned")
 
     def nt(b):
